@@ -34,8 +34,43 @@ def canary_result(traces):
                 return c, 'relay reports success although the edge refused the message'
 
 
+def hop_validation(wd, extra_cov):
+    """the conversations of the real clear-text hops, judged against the behaviours TLC enumerates for spec/Hop.tla"""
+    import copy as _copy
+    from .. import hopbeh
+    from ..common import MachineryError
+
+    def post(oc, traces, summaries):
+        cnt = {'ok': 0, 'drift': 0, 'outside': 0}
+        samples, canary_done = [], None
+        for tr in traces:
+            for e in tr['ev']:
+                if e['t'] != 'wire':
+                    continue
+                vs = hopbeh.judge(wd, e)
+                for v in vs:
+                    cnt[v] += 1
+                if 'drift' in vs and len(samples) < 3:
+                    samples.append({'trace_id': tr['id'], 'cls': tr['cls'], 'wire': e})
+                if canary_done is None and vs == ['ok'] and len(e['convs'][0]) > 5:
+                    # binding canary: the answer to one command of a conforming conversation changed
+                    c = _copy.deepcopy(e)
+                    k = [i for i, h in enumerate(c['convs'][0]) if h[1] in ('mail', 'rcpt', 'eod')][-1]
+                    c['convs'][0][k][3] = 'p5' if c['convs'][0][k][3] == 'ok' else 'ok'
+                    canary_done = hopbeh.judge(wd, c)
+        if canary_done is not None and 'drift' not in canary_done:
+            raise MachineryError('binding canary accepted by the Hop behaviours: an answer of the edge changed')
+        extra_cov['design_model_validation'] = {
+            'module': 'Hop (behaviours enumerated by TLC, membership of the real conversation + result)', 'connections': sum(cnt.values()),
+            'accepted': cnt['ok'], 'drift': {'hop': cnt['drift']} if cnt['drift'] else {}, 'outside_the_model': cnt['outside'],
+            'configurations': hopbeh.STATS['configs'], 'behaviours': hopbeh.STATS['behaviours'], 'tlc_states': hopbeh.STATS['tlc_states'],
+            'canary_rejected': canary_done is not None, 'drift_samples': samples}
+    return post
+
+
 def run(tier):
     wd = workdir('C06')
+    extra_cov = {}
     mc = [{'name': 'DataFraming (content framing across the hop)', 'module': 'MC_DataFraming',
            'cfg': flow.write_cfg(wd, 'df.cfg', MC_CFG % (4 if tier == 'quick' else 6))},
           {'name': 'SmtpServer graph (receiving side)', 'module': 'SmtpServer', 'cfg': 'SmtpServer.cfg'}]
@@ -84,7 +119,7 @@ CHECK_DEADLOCK FALSE
                      'quoted-pairs inside quoted local parts and non-ASCII addresses without SMTPUTF8 are outside the domain',
                      'the HTTP relay -> WSGI edge hop and the LMTP client are not driven yet'],
         trusted=['TLC 1.8', 'CommunityModules Json/IOUtils', 'harness/drivers/c06.py'],
-        wd=wd)
+        wd=wd, extra_cov=extra_cov, post=hop_validation(wd, extra_cov))
 
 
 def replay(path):
